@@ -25,6 +25,8 @@ type Ev struct {
 	Exists bool   `json:"exists"`
 	Count  int    `json:"count"`
 	Opts   string `json:"opts"`
+	Ms     int    `json:"ms"`     // CommitEnd: wall-clock duration of Commit in milliseconds
+	Budget int    `json:"budget"` // CommitEnd: min(caller's deadline, maxTime) in milliseconds (0 = not asserted)
 	Name   string `json:"name,omitempty"`
 	Note   string `json:"note,omitempty"`
 }
